@@ -93,18 +93,28 @@ def symbolic_card(name, shape):
     return Tup((Lit(name),) + tuple(FIELD(i, t) for i, t in enumerate(shape)))
 
 
-def run_writer(ctx, q, name, shape, formatter=None):
-    """-> abstract text written for the card, or raises Unsupported"""
+FILE = Opaque("file", ())
+ITER = Opaque("iterator", ())
+
+
+def run_writer(ctx, q, name, shape):
+    """-> abstract text written for the card, or raises Unsupported.  The writer is evaluated with the helpers it calls (whatever they are
+    named, wherever the per-field formatting lives); text counts as written when it is handed to `write` / `writelines` of the *file value*,
+    under whatever name a helper receives it.  The public float formatters stay calls: their result is one field of known width."""
     fn = ctx.src.func(BULK, q)
     params = [a.arg for a in fn.args.args]
     if len(params) < 2:
         raise AnchorError(f"{q}: parameters")
-    env = {params[0]: Opaque("file", ()), params[1]: symbolic_card(name, shape)}
-    if formatter is not None:
-        if len(params) < 3:
-            raise AnchorError(f"{q}: formatter parameter")
-        env[params[2]] = Opaque("name:" + formatter, ())
-    eng = Engine(ctx, BULK, fn, cond=_field_cond, env=env, post=_text_post, strict_locals=True)
+    env = {params[0]: FILE, params[1]: symbolic_card(name, shape)}
+
+    def call(nm, args, kw, node, st, eng):
+        if isinstance(node.func, ast.Attribute) and node.func.attr in ("write", "writelines") and len(args) == 1 and not kw \
+                and eng.ev(node.func.value, st) == FILE:
+            st.effects = st.effects + (("<file>." + node.func.attr, tuple(args), (), node),)
+            return Const(None)
+        return NotImplemented
+
+    eng = Engine(ctx, BULK, fn, cond=_field_cond, call=call, env=env, post=_text_post, strict_locals=True, inline=lambda n: n not in FLOATW)
     allv = eng.run()
     leaves = [lf for lf in allv if lf.kind in ("fall", "return")]      # paths that raise write no card
     crash = [lf for lf in allv if lf.kind == "raise" and isinstance(lf.value, Lit) and not lf.state.facts]
@@ -114,9 +124,11 @@ def run_writer(ctx, q, name, shape, formatter=None):
     for lf in leaves:
         out = []
         for nm, args, kw, node in lf.state.effects:
-            if nm == params[0] + ".write" and args and len(args) == 1:
+            if nm == "<file>.write":
                 out.append(args[0])
-            elif nm == params[0] + ".writelines" and args and isinstance(args[0], Tup):
+            elif nm == "<file>.writelines":
+                if not isinstance(args[0], Tup):
+                    raise Unsupported(f"{q}: writelines of {type(args[0]).__name__}")
                 out.extend(args[0].items)
         if any(not is_str(o) for o in out):
             raise Unsupported(f"{q}: written text is not modelled ({[type(o).__name__ for o in out if not is_str(o)][:3]})")
@@ -124,6 +136,11 @@ def run_writer(ctx, q, name, shape, formatter=None):
     if not texts or any(t != texts[0] for t in texts):
         raise Unsupported(f"{q}: {len(texts)} different texts for one card (undecided: {[f[0] for lf in leaves for f in lf.state.facts][:3]})")
     return texts[0]
+
+
+def formatters_in(text):
+    """names of the module functions whose results are fields of the text"""
+    return {n.name for n in walk_value(text) if isinstance(n, CallS)}
 
 
 def expected_slots(shape):
@@ -137,7 +154,7 @@ def trim(seq, blank):
     return seq
 
 
-def check_grid(text, W, per, conchars, shape, closing):
+def check_grid(text, W, per, conchars, shape):
     """parse the written text on the reference grid -> problem text or None"""
     lines = split_lines(text)
     got = []
@@ -170,19 +187,19 @@ def run_reader(ctx, q, lines, n, conchar, fixed=True):
     want = ["fiter", "s", "n", "conchar", "blank", "tolist", "keep_name"] if fixed else ["fiter", "s", "conchar", "blank", "tolist", "keep_name"]
     if len(params) != len(want):
         raise AnchorError(f"{q}: signature {params}")
-    vals = [Opaque("iterator", ()), lines[0]] + ([Fraction(n)] if fixed else []) + [Lit(conchar), BLANK, Const(True), Const(False)]
+    vals = [ITER, lines[0]] + ([Fraction(n)] if fixed else []) + [Lit(conchar), BLANK, Const(True), Const(False)]
     env = dict(zip(params, vals))
-    env["<next>"] = Fraction(1)
-    it = params[0]
+
+    def taken(st):
+        return sum(1 for e in st.effects if e[0] == "<iterator>.next")
 
     def call(name, args, kw, node, st, eng):
-        if name == it + ".send" or (name == "next" and args and args[0] == env[it]):
-            k = as_int(st.env["<next>"])
-            st.env["<next>"] = Fraction(k + 1)
+        # the next line: asked of the *iterator value* (send / next), whatever the function at hand calls it
+        if (isinstance(node.func, ast.Attribute) and node.func.attr in ("send", "__next__") and eng.ev(node.func.value, st) == ITER) \
+                or (name == "next" and args and args[0] == ITER):
+            k = 1 + taken(st)
+            st.effects = st.effects + (("<iterator>.next", (), (), node),)
             return lines[k] if k < len(lines) else Const(None)
-        if name == "_proc_line" and len(args) == 1:
-            # comment stripping: the written card holds no '$' (fields are numbers, names, blanks) -> what is left is the right strip
-            return _text_post(Strip(args[0], None, "r"), st, eng) if is_str(args[0]) else Unk("_proc_line")
         if name == "nas_sscanf" and args:
             x = args[0]
             if isinstance(x, Opaque) and x.name in ("part", "parts"):
@@ -199,10 +216,19 @@ def run_reader(ctx, q, lines, n, conchar, fixed=True):
             if at is not None and not fs and b is False:
                 return Lit("".join(a.s for a, _ in at).strip())
             return Opaque("misread", (x,))
-        if isinstance(node.func, ast.Attribute) and node.func.attr == "split" and len(args) == 1 and args[0] == Lit(","):
+        if isinstance(node.func, ast.Attribute) and node.func.attr in ("split", "partition", "rpartition") and len(args) == 1 \
+                and isinstance(args[0], Lit) and len(args[0].s) == 1:
+            # card text cut at a character: only literal pieces can hold it (fields are numbers / names without '$', ',', '*')
             recv = eng.ev(node.func.value, st)
             if is_str(recv) and atoms(recv) is not None:
-                return split_commas(recv)
+                toks = split_commas(recv, args[0].s).items
+                if node.func.attr == "split":
+                    return Tup(toks)
+                if len(toks) == 1:
+                    return Tup((recv, Lit(""), Lit(""))) if node.func.attr == "partition" else Tup((Lit(""), Lit(""), recv))
+                cut = 1 if node.func.attr == "partition" else len(toks) - 1
+                glue = lambda ts: cat(*[x for i, t in enumerate(ts) for x in ((args[0], t) if i else (t,))])      # noqa: E731
+                return Tup((glue(toks[:cut]), args[0], glue(toks[cut:])))
         if isinstance(node.func, ast.Attribute) and node.func.attr in ("find", "index") and len(args) == 1 and isinstance(args[0], Lit):
             recv = eng.ev(node.func.value, st)
             if is_str(recv) and not isinstance(recv, Lit) and atoms(recv) is not None and len(args[0].s) == 1:
@@ -233,7 +259,8 @@ def run_reader(ctx, q, lines, n, conchar, fixed=True):
                 return Lit(c)
         return v
 
-    eng = Engine(ctx, BULK, fn, cond=cond, call=call, env=env, post=post, strict_locals=True)
+    # helpers are followed (comment stripping, field conversion wrappers, per-line loops ...); nas_sscanf is the number reader of C12-R4
+    eng = Engine(ctx, BULK, fn, cond=cond, call=call, env=env, post=post, strict_locals=True, inline=lambda nm: nm != "nas_sscanf")
     leaves = eng.run()
     rets = [lf for lf in leaves if lf.kind == "return"]
     crash = [lf for lf in leaves if lf.kind == "raise" and isinstance(lf.value, Lit) and not lf.state.facts]
@@ -248,8 +275,7 @@ def run_reader(ctx, q, lines, n, conchar, fixed=True):
         wrong = any(isinstance(n, Opaque) and n.name == "misread" for n in walk_value(x))
         if not wrong and not (is_field(x) or x == BLANK or isinstance(x, (Lit, Const)) or is_num(x)):
             raise Unsupported(f"{q}: a value read is not determined ({type(x).__name__})")
-    consumed = as_int(rets[0].state.env["<next>"]) - 1
-    return list(v.items), consumed
+    return list(v.items), taken(rets[0].state)
 
 
 def comma_lines(name, shape, lead=",", short=False, marker=""):
@@ -311,26 +337,112 @@ def shapes(per):
     return out
 
 
+READERS = ("_rdfixed", "_rdcomma")
+LINE = Param("<line>")
+LINES = Opaque("line-iterator", ())
+
+
+def _is_generator(fn):
+    stack = list(fn.body)
+    while stack:
+        n = stack.pop()
+        if isinstance(n, (ast.Yield, ast.YieldFrom)):
+            return True
+        if not isinstance(n, (ast.FunctionDef, ast.AsyncFunctionDef, ast.Lambda, ast.ClassDef)):
+            stack.extend(ast.iter_child_nodes(n))
+    return False
+
+
+def _reaching(mod, targets):
+    """module-level functions from which a call of one of `targets` is reachable (call graph over plain names)"""
+    calls = {}
+    for nm, fn in mod.funcs.items():
+        if "." in nm or "#" in nm:
+            continue
+        calls[nm] = {n.func.id for n in ast.walk(fn) if isinstance(n, ast.Call) and isinstance(n.func, ast.Name)}
+    reach = set(targets)
+    grew = True
+    while grew:
+        grew = False
+        for nm, cs in calls.items():
+            if nm not in reach and cs & reach:
+                reach.add(nm)
+                grew = True
+    return reach
+
+
+class _DispatchEngine(Engine):
+    """rdcards is evaluated for one generic card: a loop body is run once (its test taken to hold), a line asked of the line iterator is
+    the symbol <line>; a path ends once it has handed the line to a reader"""
+
+    def _seen_reader(self, st, since):
+        return any(e[0] in READERS for e in st.effects[since:])
+
+    def _generic(self, s, st, bind=None):
+        out = []
+        start = st.fork()
+        if bind is not None:
+            self.assign(s.target, bind, start)
+        n0 = len(st.effects)
+        for st2, o, pay in self.block(s.body, start):
+            if o in ("next", "continue", "break"):
+                if self._seen_reader(st2, n0):
+                    out.append((st2, "return", (Const(None), s)))
+                    continue
+                for n in ast.walk(s):
+                    if isinstance(n, ast.Name) and isinstance(n.ctx, ast.Store):
+                        st2.env[n.id] = Unk("assigned in a loop")
+                out.append((st2, "next", None))
+            else:
+                out.append((st2, o, pay))
+        return out
+
+    def while_loop(self, s, st, bound=400):
+        return self._generic(s, st)
+
+    def _for_loop(self, s, st, it):
+        if it == LINES:
+            return self._generic(s, st, LINE)
+        if isinstance(it, Tup) and len(it.items) <= 2:
+            return Engine._for_loop(self, s, st, it)
+        return self._generic(s, st, Unk("loop item"))
+
+
 def rdcards_dispatch(ctx):
     """(field width, continuation characters) the generic reader hands to _rdfixed with / without a '*' in the name field, and the
-    continuation characters of the comma reader: read from the values of the calls in rdcards"""
+    continuation characters of the comma reader: read from the *values* of the reader calls reached from rdcards - directly or through
+    helpers (call graph), in whatever loop - on every path of a generic card.  The line iterator is the value of a call to a generator
+    of the module, the current line is what `next` / `send` of that value gives."""
     fn = ctx.src.func(BULK, "rdcards")
-    loops = [n for n in ast.walk(fn) if isinstance(n, ast.While) and any(isinstance(c, ast.Call) and dotted(c.func) == "_rdfixed" for c in ast.walk(n))]
-    if len(loops) != 1:
-        raise AnchorError("rdcards: the card loop calling _rdfixed")
-    lnames = sorted({n.id for n in ast.walk(loops[0].test) if isinstance(n, ast.Name)})
-    eng = Engine(ctx, BULK, fn, env={}, lenient=True)
-    st = eng.start_state()
-    for nm in lnames:
-        st.env[nm] = Param("<line>")          # the loop runs while there is a line: its test names the line variable
+    mod = ctx.src.mod(BULK)
+    reach = _reaching(mod, READERS)
+    if "rdcards" not in reach:
+        raise AnchorError("rdcards: no call path to _rdfixed / _rdcomma")
+
+    def follow(nm):
+        return nm in reach and nm not in READERS and nm != "rdcards"
+
+    def call(name, args, kw, node, st, eng):
+        if name in mod.funcs and name not in st.env and _is_generator(mod.funcs[name]):
+            return LINES
+        if name == "next" and args and args[0] == LINES:
+            return LINE
+        if isinstance(node.func, ast.Attribute) and node.func.attr in ("send", "__next__") and eng.ev(node.func.value, st) == LINES:
+            return LINE
+        return NotImplemented
+
+    eng = _DispatchEngine(ctx, BULK, fn, env={}, lenient=True, call=call, inline=follow)
     try:
-        res = eng.block(loops[0].body, st)
+        leaves = eng.run()
     except Unsupported as e:
-        raise Unsupported(f"rdcards card loop: {e}")
+        raise Unsupported(f"rdcards: {e}")
     found = {}
     comma = set()
     order = []
-    for s2, out, pay in res:
+    where = None
+    seen = set()
+    for lf in leaves:
+        s2 = lf.state
         star = None
         for f in s2.facts:
             vals = f[3] if len(f) > 3 else None
@@ -341,16 +453,23 @@ def rdcards_dispatch(ctx):
             if pol is not None:
                 star = (f[1] == pol)
         for nm, args, kw, node in s2.effects:
-            if nm in ("_rdfixed", "_rdcomma") and args and len(args) >= 3:
-                args = _by_signature(ctx, nm, args, kw)
-                has_line = [any(n == Param("<line>") for n in walk_value(a)) for a in args[:2]]
-                if has_line != [False, True]:
-                    order.append(nm)
-            if nm == "_rdfixed" and args and len(args) >= 4 and star is not None:
+            if nm not in READERS or args is None:
+                continue
+            where = where or node
+            args = _by_signature(ctx, nm, args, kw)
+            if len(args) < 3 or (id(node), star) in seen:
+                continue
+            seen.add((id(node), star))
+            has_line = [a is not None and any(n == LINE for n in walk_value(a)) for a in args[:2]]
+            if has_line != [False, True] or args[0] != LINES:
+                order.append(nm)
+            if nm == "_rdfixed" and len(args) >= 4 and star is not None:
                 found.setdefault(star, set()).add((args[2], args[3]))
-            if nm == "_rdcomma" and args and len(args) >= 3:
+            if nm == "_rdcomma":
                 comma.add(args[2])
-    return found, comma, loops[0], order
+    if where is None:
+        raise AnchorError("rdcards: no path of a generic card reaches _rdfixed / _rdcomma")
+    return found, comma, where, order
 
 
 def _by_signature(ctx, name, args, kw):
@@ -379,8 +498,7 @@ def _star_test(op, a, b):
     return None
 
 
-WRITERS = (("wtcard8", None, "GRID", 8, 8, False), ("_wtcard16", "format_float16", "GRID*", 16, 4, True),
-           ("_wtcard16", "format_double16", "DMIG*", 16, 4, True))
+WRITERS = (("wtcard8", "format_float8", "GRID", 8, 8), ("wtcard16", "format_float16", "GRID*", 16, 4), ("wtcard16d", "format_double16", "DMIG*", 16, 4))
 
 
 def r3_card_grid(ctx):
@@ -401,30 +519,29 @@ def r3_card_grid(ctx):
     ok = len(comma) == 1 and isinstance(next(iter(comma)), Lit) and set(" +,") <= set(next(iter(comma)).s)
     ctx.check(ok, "rdcards: the comma reader accepts blank, '+' and ',' continuations", loop, [str(c) for c in comma])
     cch = next(iter(comma)).s if ok else " +,"
-    # wtcard16 / wtcard16d hand their formatter to the shared writer
-    for q, fmt in (("wtcard16", "format_float16"), ("wtcard16d", "format_double16")):
+    # the three writers render real fields with their own formatter (single- vs double-precision style), wherever the shared code lives
+    for q, fmt, name, W, per in WRITERS:
         fn = ctx.src.func(BULK, q)
-        eng = Engine(ctx, BULK, fn)
-        lv = eng.run()
-        calls = [(nm, args) for lf in lv for nm, args, kw, node in lf.state.effects if nm == "_wtcard16"]
-        ps = [a.arg for a in fn.args.args]
-        ok = len(lv) == 1 and len(calls) == 1 and calls[0][1] is not None and len(calls[0][1]) == 3 and list(calls[0][1][:2]) == [Param(p) for p in ps[:2]] \
-            and calls[0][1][2] == Opaque("name:" + fmt, ())
-        ctx.check(ok, f"{q}: writes through _wtcard16 with {fmt}", fn)
+        try:
+            used = formatters_in(run_writer(ctx, q, name, ["float", "int", "float"]))
+        except (Crash, Unsupported) as e:
+            ctx.error(f"{q}: the writer is not modelled", fn, str(e))
+            continue
+        ctx.check(used == {fmt}, f"{q}: real fields are rendered by {fmt}", fn, None if used == {fmt} else sorted(used))
     # ---- writers on the reference grid, readers on the written text
-    for q, fmt, name, W, per, closing in WRITERS:
+    for q, fmt, name, W, per in WRITERS:
         wfn = ctx.src.func(BULK, q)
-        tag = q + (f"[{fmt}]" if fmt else "")
+        tag = q
         for desc, shape in shapes(per):
             try:
-                text = run_writer(ctx, q, name, shape, fmt)
+                text = run_writer(ctx, q, name, shape)
             except Crash as e:
                 ctx.fail(f"{tag}: card of {desc}: the card is written", wfn, str(e))
                 continue
             except Unsupported as e:
                 ctx.error(f"{tag}: card of {desc}: the writer is not modelled", wfn, str(e))
                 continue
-            problem = check_grid(text, W, per, conch[W], shape, closing)
+            problem = check_grid(text, W, per, conch[W], shape)
             ctx.check(problem is None, f"{tag}: card of {desc}: name in 8 columns, every field in its own {W}-wide slot, {per} per line, "
                                        f"continuation lines headed by 8 columns starting with a character the reader accepts", wfn, problem)
             if problem is not None:
